@@ -27,6 +27,7 @@ RULE = ("Bounded-exhaustive: every dataclass of 1-3 (quick) / 1-4 (thorough) ele
 ASSUMPTIONS = ["the relative order of several elements attached to the same target in the same direction is not documented: any order is accepted",
                "after/before targets always name an element of the same view unless the case is tagged target_absent (reported separately)"]
 BUDGET = {"quick": 150, "thorough": 3000}
+FUZZ = {"quick": 0, "thorough": 0}  # decided by enumeration (no Hypothesis strategy to drive)
 SHARDS = {"quick": 8, "thorough": 16}
 MIN_NONTRIVIAL = {"quick": 1000, "thorough": 20000}
 TECHNIQUE = "bounded-exhaustive enumeration of ordering programs (<= 3/4 elements) + Hypothesis for larger ones, checked by an independent validity predicate"
